@@ -1,5 +1,5 @@
 """C04 — rcu_barrier() returns only after all previously queued callbacks have run (partial)."""
-from .. import ir, mm, pat, lockset, waitloop
+from .. import ir, mm, pat, paths, lockset, waitloop
 from ..core import Broken
 from ..flavors import FL, ALL
 from . import c01, c03
@@ -176,6 +176,66 @@ def rule_ref(ctx, rep):
                   "rcu_barrier accesses the completion after urcu_ref_put", [b.where() for b in bad[:2]])
 
 
+def rule_urcuref(ctx, rep, rid="C04.urcuref"):
+    """urcu_ref (witness/ref.c), the count that decides who frees the completion object: put = one atomic decrement by 1, the
+    release callback runs exactly for the caller that brought the count to 0, on the object itself; get = CAS loop installing
+    old + 1 that succeeds only when the CAS returned the expected value and retries with the value returned; init = 1."""
+    m = ctx.mod("w_ref", "flat")
+    f = m.fn("w_ref_put")
+    if f is None:
+        raise Broken("witness w_ref_put missing")
+    rep.touch(f)
+    dec = [e for e in pat.accesses(f, "urcu_ref.refcount", ("rmw",))]
+    ic = [i for i in f.all_insts() if i.op == "icall"]
+    if len(dec) != 1 or not pat.is_decrement(f, dec[0]) or dec[0].ap["base"] != ["a", 0]:
+        rep.bad(rid, "put.decrement", "urcu_ref_put is not a single atomic decrement by one of ref->refcount (%s)" % [(e.rop, ir.const_of(f, e.val)) for e in dec], [f.name])
+    else:
+        rep.ok(rid, "put.decrement", "one atomic decrement by 1", [dec[0].inst.where()])
+        if not ic:
+            rep.bad(rid, "put.release", "urcu_ref_put never calls the release function: the last reference leaks the object (rcu_barrier's completion, the marker work items)", [f.name])
+        for i in ic:
+            lv = pat.dom_leaf_atoms(f, i)
+            zero = any(a[0] == "eq" and a[2] == ("c", 0) and ir.expr_contains(a[1], lambda z: z[0] in ("asm", "rmw") and z[-1] == dec[0].inst.id) for a in lv)
+            rep.check(zero, rid, "put.release-on-zero", "release() runs exactly when the decrement brought the count to 0", "release() is not tied to the count reaching 0 (%s): the object is freed while references remain, or never" % [ir.atom_str(a) for a in lv][:3], [i.where()])
+            rep.check(ir.expr(f, i.d["fp"], 2) == ("arg", 1) and ir.expr(f, i.args[0], 2) == ("arg", 0), rid, "put.release-args", "release(ref) through the caller's function", "release called as %s(%s)" % (ir.expr_str(ir.expr(f, i.d["fp"], 2)), ir.expr_str(ir.expr(f, i.args[0], 2))), [i.where()])
+            rep.must_pass(rid, "put.dec≺release", f, [f.entry()], [i], lambda x: x is dec[0].inst, include_start=True, what="the count is decremented before release")
+        nz = [(t.blk.id, s_) for t, s_, a in pat.branch_edges_on(f, lambda a: a[0] == "ne" and a[2] == ("c", 0) and ir.expr_contains(a[1], lambda z: z[0] in ("asm", "rmw") and z[-1] == dec[0].inst.id))]
+        for b_, s_ in nz:
+            hit, _ = f.reach([f.blocks[s_].insts[0]], ic, include_start=True)
+            rep.check(hit is None, rid, "put.no-release-if-nonzero", "no release while references remain", "release() reachable although the count did not reach 0", [f.blocks[b_].insts[-1].where()])
+    for name, stops in (("w_ref_get_safe", {0x7fffffffffffffff}), ("w_ref_get_unless_zero", {0, 0x7fffffffffffffff})):
+        g = m.fn(name)
+        if g is None:
+            raise Broken("witness %s missing" % name)
+        rep.touch(g)
+        cx = [e for e in pat.accesses(g, "urcu_ref.refcount", ("cmpxchg",))]
+        if len(cx) != 1:
+            rep.bad(rid, name[2:] + ".cas", "%s does not update the count by one compare-and-swap" % name[2:], [g.name])
+            continue
+        c = cx[0]
+        exp, new = ir.expr(g, c.exp, 4), ir.expr(g, c.new, 4)
+        rep.check(new == ("bin", "add", exp, ("c", 1)), rid, name[2:] + ".plus-one", "installs expected + 1", "installs %s for expected %s" % (ir.expr_str(new), ir.expr_str(exp)), [c.inst.where()])
+        for p_, atoms, v in paths.ret_cases(g):
+            ok_cas = any(a[0] == "eq" and any(isinstance(z, tuple) and z[0] == "asm" and z[-1] == c.inst.id for z in (a[1], a[2])) for a in atoms)
+            if v is not None and v[0] == "c" and v[1] != 0:
+                rep.check(ok_cas, rid, name[2:] + ".true-iff-cas-succeeded", "returns true only when the CAS returned the expected value", "returns true on a path where the CAS is not known to have succeeded: the caller uses an object it holds no reference to", [g.rets()[0].where()])
+            elif v == ("c", 0):
+                okstop = any((a[0] == "eq" and a[2][0] == "c" and a[2][1] in stops) or (a[0] == "in" and set(a[2]) <= stops) for a in atoms) and not ok_cas
+                rep.check(okstop, rid, name[2:] + ".false-only-at-limit", "returns false only at %s" % sorted(stops), "returns false on %s" % [ir.atom_str(a) for a in atoms][:3], [g.rets()[0].where()])
+        ph = g.inst_of(ir.strip_casts(g, c.exp))
+        if ph is not None and ph.op == "phi":
+            incs = [ir.expr(g, v_, 3) for v_, _b in ph.d["inc"]]
+            okr = any(x[0] == "asm" and x[-1] == c.inst.id for x in incs) and any(x[0] == "load" for x in incs)
+            rep.check(okr, rid, name[2:] + ".retry-with-returned", "a failed CAS retries with the value it returned", "the expected value of the retry is %s" % [ir.expr_str(x) for x in incs], [c.inst.where()])
+        else:
+            rep.bad(rid, name[2:] + ".retry-with-returned", "the CAS expects a value fixed before the loop: after one failure it can never succeed", [c.inst.where()])
+    gi = m.fn("w_ref_init")
+    if gi is not None:
+        rep.touch(gi)
+        st = [s_ for s_ in pat.stores(gi, "urcu_ref.refcount")]
+        rep.check(len(st) == 1 and ir.const_of(gi, st[0].args[0]) == 1, rid, "init=1", "urcu_ref_init sets the count to 1 (the creator's reference)", "urcu_ref_init sets the count to %s" % [ir.const_of(gi, s_.args[0]) for s_ in st], [gi.name])
+
+
 def rule_offline(ctx, rep):
     F = FL["qsbr"]
     f = ctx.fn("qsbr", "urcu_qsbr_barrier")
@@ -326,6 +386,7 @@ RULES = [
     ("C04.sb", rule_sb),
     ("C04.waitloop", rule_waitloop),
     ("C04.ref", rule_ref),
+    ("C04.urcuref", rule_urcuref),
     ("C04.offline", rule_offline),
     ("C04.fifo", rule_fifo),
     ("C04.wake", rule_wake),
